@@ -133,8 +133,10 @@ def gen_history(rng, profile_name, length):
             ops.append(("set", s, v))
         elif r < 0.75:
             ops.append(("op", "apply", None))
-        elif r < 0.93:
+        elif r < 0.88:
             ops.append(("op", "refresh", None))
+        elif r < 0.95:
+            ops.append(("op", "selfclean", None))
         else:
             ops.append(("op", "getcaps", None))
     ops.append(("op", "apply", None))
@@ -193,6 +195,14 @@ def run_history(ctx, stream, profile_name, ops, beep):
                             ctx.violate(stream, {**inp, "at": i}, {"id": pid, "value": hx(val)}, {"value": hx(want)},
                                         "property value not in the vendor encoding")
             changed = set()
+        elif op[1] == "selfclean":
+            mine = d2.writes[run_history.nwrites_before:]
+            ok = (len(mine) == 1 and sorted(a for a, _ in mine[0]) == [0x1A, 0x39]
+                  and dict(mine[0])[0x39] == b"\x01")
+            if not ok:
+                ctx.violate(stream, {**inp, "at": i}, {"writes": [[(a, hx(b)) for a, b in w] for w in mine]},
+                            {"ids": [0x1A, 0x39], "self_clean": "01"}, "start_self_clean did not send exactly the self-clean write (+buzzer)")
+            # pending changes of other settings are untouched: `changed` stays as it is
         elif op[1] == "refresh" and known:
             # read back: every setting whose id the device implements equals what the device holds
             vals = d2.vals()
@@ -246,6 +256,13 @@ def run(ctx):
             run_history(ctx, "histories", name, ops, beep=rng.random() < 0.5)
     # every enum value of every setting, on the profile that implements it: set, apply, refresh
     full = "breeze_control+5rate+ieco+angles"
+    # a self-clean between a change and its apply must not swallow the change
+    for setter, v in [("hangle", 50), ("vangle", 25), ("rate", 50), ("ieco", 1), ("breeze_away", 1), ("breezeless", 1)]:
+        for prof in PROFILES:
+            for ops in ([("op", "getcaps", None), ("set", setter, str(v)), ("op", "selfclean", None), ("op", "apply", None), ("op", "refresh", None)],
+                        [("set", setter, str(v)), ("op", "selfclean", None), ("op", "selfclean", None), ("op", "apply", None), ("op", "apply", None)]):
+                run_history.nwrites_before = 0
+                run_history(ctx, "selfclean_between", prof, ops, beep=rng.random() < 0.5)
     for setter, values in [("hangle", [0, 1, 25, 50, 75, 100]), ("vangle", [0, 1, 25, 50, 75, 100]),
                            ("rate", [100, 80, 60, 40, 20, 1]), ("ieco", [0, 1]), ("breeze_away", [0, 1]),
                            ("breeze_mild", [0, 1]), ("breezeless", [0, 1])]:
